@@ -180,6 +180,29 @@ fn render_ev(ev: &SseEv, seqno: &mut u64) -> Vec<(Option<String>, String)> {
     out
 }
 
+/// In a scripted text this character is sent as the single byte 0xFF (invalid UTF-8).
+pub const INVALID_BYTE_MARK: char = '\u{e0ff}';
+
+/// Adds a text delta that carries an invalid byte to one of the script's event-stream responses
+/// (before its last event, so further events follow it in the same response).
+pub fn inject_invalid_byte(script: &mut [Resp], rng: &mut Rng) -> bool {
+    let idx: Vec<usize> = script.iter().enumerate().filter(|(_, r)| matches!(r, Resp::Sse { events, .. } if !events.is_empty())).map(|(i, _)| i).collect();
+    if idx.is_empty() {
+        return false;
+    }
+    let k = idx[rng.usize_below(idx.len())];
+    if let Resp::Sse { events, .. } = &mut script[k] {
+        let at = events.len() - 1;
+        let text = match rng.below(3) {
+            0 => format!("bad{INVALID_BYTE_MARK}byte "),
+            1 => format!("{INVALID_BYTE_MARK}"),
+            _ => format!("é{INVALID_BYTE_MARK}{INVALID_BYTE_MARK}日本 "),
+        };
+        events.insert(at, SseEv::TextDelta { text });
+    }
+    true
+}
+
 pub fn render_sse(events: &[SseEv], interleave: bool, done: &DoneMode, crlf: bool) -> (Vec<u8>, Vec<usize>) {
     let nl = if crlf { "\r\n" } else { "\n" };
     let mut seqno = 0u64;
@@ -210,7 +233,17 @@ pub fn render_sse(events: &[SseEv], interleave: bool, done: &DoneMode, crlf: boo
         if let Some(n) = name {
             bytes.extend_from_slice(format!("event: {n}{nl}").as_bytes());
         }
-        bytes.extend_from_slice(format!("data: {data}{nl}{nl}").as_bytes());
+        // scripts are text; the private-use character INVALID_BYTE_MARK stands for one byte that is
+        // invalid anywhere in UTF-8 and is replaced by it on the wire
+        let line = format!("data: {data}{nl}{nl}");
+        let mark = INVALID_BYTE_MARK.to_string();
+        let mut rest = line.as_str();
+        while let Some(pos) = rest.find(&mark) {
+            bytes.extend_from_slice(rest[..pos].as_bytes());
+            bytes.push(0xFF);
+            rest = &rest[pos + mark.len()..];
+        }
+        bytes.extend_from_slice(rest.as_bytes());
     };
     for (n, d) in &flat {
         push(&mut bytes, n, d);
